@@ -298,6 +298,16 @@ def save_performance_midi(
         return mf
 
 
+def _n_leading_note_offs(messages):
+    """Number of note-off messages at the head of a list of messages"""
+    n = 0
+    for msg in messages:
+        if msg.type != "note_off":
+            break
+        n += 1
+    return n
+
+
 @deprecated_alias(parts="score_data")
 def save_score_midi(
     score_data: ScoreLike,
@@ -519,12 +529,18 @@ def save_score_midi(
             # key is a tuple (part_group, part, voice) that will be
             # converted into a (track, channel) pair.
             key = (pg, part, note.voice)
-            events[key][to_ppq(note.start.t)].append(
+            t_on = to_ppq(note.start.t)
+            t_off = to_ppq(note.start.t + note.duration_tied)
+            events[key][t_on].append(
                 Message("note_on", note=note.midi_pitch, velocity=velocity)
             )
-            events[key][to_ppq(note.start.t + note.duration_tied)].append(
-                Message("note_off", note=note.midi_pitch)
-            )
+            note_off = Message("note_off", note=note.midi_pitch)
+            if t_off > t_on:
+                # the end of a note that began earlier goes before the other
+                # events of its tick (a note of the same pitch may begin there)
+                events[key][t_off].insert(_n_leading_note_offs(events[key][t_off]), note_off)
+            else:
+                events[key][t_off].append(note_off)
             event_keys[key] = True
 
     tr_ch_map = map_to_track_channel(list(event_keys.keys()), part_voice_assign_mode)
@@ -535,7 +551,13 @@ def save_score_midi(
         del events[key]
         tr, ch = tr_ch_map[key]
         for t, evs in evs_by_time.items():
-            events[tr][t].extend((ev.copy(channel=ch) for ev in evs))
+            evs = [ev.copy(channel=ch) for ev in evs]
+            # voices that share a channel: the ends of earlier notes stay
+            # before the note-ons of the tick, whichever voice they are in
+            n_lead = _n_leading_note_offs(evs)
+            n_have = _n_leading_note_offs(events[tr][t])
+            events[tr][t][n_have:n_have] = evs[:n_lead]
+            events[tr][t].extend(evs[n_lead:])
 
     # figure out in which tracks to replicate the time/key signatures of each part
     part_track_map = partition(lambda x: x[0][1], tr_ch_map.items())
